@@ -177,6 +177,29 @@ def check_case(ctx, enc, msg, origin, name=None, label='plain'):
                     'compressed output wrong: ' + what, spec, observed=out.hex())
 
 
+REFUSED_INPUTS = [
+    # value out of range in the middle of the data section / too few values / unknown table version / malformed header
+    [['BUFR', 0, 4], [0, 0, 0, 0, 0, False, '0000000', 0, 0, 0, 33, 0, 2020, 1, 1, 0, 0, 0],
+     [0, '00000000', 1, True, False, '000000', [1001, 12001, 1001]], [0, '00000000', [[5, 270.0, 99999]]], ['7777']],
+    [['BUFR', 0, 4], [0, 0, 0, 0, 0, False, '0000000', 0, 0, 0, 33, 0, 2020, 1, 1, 0, 0, 0],
+     [0, '00000000', 2, True, True, '000000', [1001, 101000, 31001, 12001]], [0, '00000000', [[5, 1, 270.0], [6, 2, 271.0, 272.0]]], ['7777']],
+    [['BUFR', 0, 4], [0, 0, 0, 0, 0, False, '0000000', 0, 0, 0, 33, 0, 2020, 1, 1, 0, 0, 0],
+     [0, '00000000', 1, True, False, '000000', [1001, 12001]], [0, '00000000', [[5]]], ['7777']],
+    [['BUFR', 0, 3], [0, 0, 0, 0, 0, False, '0000000', 0, 0]],
+]
+
+
+def provoke_refusal(ctx, *encoders):
+    """the encoders are long-lived: what one of them refused must leave no trace in what it encodes next"""
+    inp = ctx.rng.choice(REFUSED_INPUTS)
+    for e in encoders:
+        try:
+            e.process(json.dumps(inp))
+            ctx.count('refusal_inputs_accepted')
+        except Exception:
+            ctx.count('refusals_provoked')
+
+
 def run(ctx):
     from pybufrkit.encoder import Encoder
     from mon.gen.templates import scoped
@@ -186,6 +209,8 @@ def run(ctx):
     encc = Encoder(compiled_template_cache_max=3)
     D33 = cases.tables(33)[1]
     for name, msg in cases.shape_cases(ctx):
+        if ctx.counters.get('shape_cases', 0) % 5 == 0:
+            provoke_refusal(ctx, enc, encc)
         check_case(ctx, enc, msg, 'shape', name)
         ctx.count('shape_cases')
         ctx.add('shapes', name)
@@ -220,6 +245,8 @@ def run(ctx):
         c = cases.random_case(ctx)
         if c is None:
             continue
+        if n % 7 == 0:
+            provoke_refusal(ctx, enc, encc)
         check_case(ctx, enc, c[0], 'random')
         if n % 3 == 0 and scoped(c[0].ids, cases.tables(c[1])[1]):
             ctx.count('compiling_encoder_cases')
